@@ -1113,8 +1113,9 @@ func w12Run(r *verifsim.Run) {
 		quiet := w.settle + w.bound + time.Second
 		for _, cn := range w.openConns() {
 			if cn.isDead() {
-				// only the sender's write deadline can get it off a dead connection
-				quiet += w.writeTimeout + 3*time.Second
+				// only the sender's write deadline can get it off a dead connection; eventual delivery is
+				// all that is demanded here, so leave room for several expiries
+				quiet += 3 * (w.writeTimeout + 3*time.Second)
 				r.Probe("run_ends_with_dead_peer_connection")
 				break
 			}
@@ -1153,7 +1154,10 @@ func (w *w12World) finalChecks() {
 	// stalled and never read, and the frame whose write call failed on such a connection
 	excused := map[int]bool{}
 	anon := 0
-	reportLost := 0.0 // reports that a reset/stalled connection swallowed
+	// Reports a connection accepted (wholly or in part) and a reset/stalled/dead connection then
+	// swallowed unread: the balancer cannot know, so they are credited. A report whose write call
+	// failed outright is known to the balancer not to have been reported and is NOT credited.
+	reportLost := 0.0
 	failedConns := 0
 	for _, c := range conns {
 		c.mu.Lock()
@@ -1164,7 +1168,6 @@ func (w *w12World) finalChecks() {
 			for _, idx := range c.failedIdx {
 				excused[idx] = true
 			}
-			reportLost += c.failedReport
 			// frames in wr beyond what was read
 			off := c.parseOff
 			if !c.hsDone {
